@@ -55,7 +55,7 @@ func callChainOrder(c *core.Check, r *core.Rule, fn *ssa.Function, names []strin
 
 func c09(c *core.Check) {
 	p := c.Prog
-	c.Explain = "Thin structural clauses of box generation: the display → box class table of boxes.makeBox is the CSS Display table and covers every display value the validator and the display computer can produce; the anonymous-box passes run in the required order (table fix-up, flex and grid blockification, inline-in-block, block-in-inline). What each rewriting pass does to the tree is not decided."
+	c.Explain = "Thin structural clauses of box generation: the display → box class table of boxes.makeBox is the CSS Display table and covers every display value the validator and the display computer can produce; the anonymous-box passes run in the required order (table fix-up, flex and grid blockification, inline-in-block, block-in-inline). What each rewriting pass does to the tree is not decided. Also decided: (R7) the slot assignment of wrapTable (shared with C13.R2); (R8) the box classes tested by the anonymous-box passes are those CSS 2.1 names."
 	r1 := c.Rule("R1", "boxes.makeBox maps each (outside, inside) display pair and each table-* keyword to the box class of the CSS Display table, and every display value validation.display / tree.display can produce has a row (or is none)", 30)
 	mb := p.Fn("html/boxes", "makeBox")
 	vd := p.Fn("css/validation", "display")
@@ -475,7 +475,7 @@ func wsSites(info *types.Info, body ast.Node) []string {
 
 func c11(c *core.Check) {
 	p := c.Prog
-	c.Explain = "Thin structural clauses of line breaking: every boolean that classifies a white-space value uses one of the CSS Text classes (collapse spaces, collapse newlines, wrap, no-wrap), site by site as confirmed by reading; the white-space and text-align vocabularies accepted by the validators are all handled by the text style conversion and by layout.textAlign. Widths and break positions are not decided. Also decided: (R6) layout.textAlign folded for all alignment combinations; (R7) no integer comparison of the layout and text code counts a resume offset twice; (R8) the character-wrapping permission of both text engines, by truth table."
+	c.Explain = "Thin structural clauses of line breaking: every boolean that classifies a white-space value uses one of the CSS Text classes (collapse spaces, collapse newlines, wrap, no-wrap), site by site as confirmed by reading; the white-space and text-align vocabularies accepted by the validators are all handled by the text style conversion and by layout.textAlign. Widths and break positions are not decided. Also decided: (R6) layout.textAlign folded for all alignment combinations; (R7) no integer comparison of the layout and text code counts a resume offset twice; (R8) the character-wrapping permission of both text engines, by truth table.  (R9) running extrema are compared with the variable they update; (R10) justification offsets of text boxes (fold) and the right limit of an indented first line."
 	r1 := c.Rule("R1", "each test of a white-space value against keywords uses exactly one CSS Text class: collapse-spaces {normal,nowrap,pre-line}, collapse-newlines {normal,nowrap}, wrap {normal,pre-line,pre-wrap}, no-wrap {nowrap,pre}; the sites are those confirmed by reading (per function)", 9)
 	classes := map[string]string{"normal,nowrap,pre-line": "collapse-spaces", "normal,nowrap": "collapse-newlines", "normal,pre-line,pre-wrap": "wrap", "nowrap,pre": "no-wrap"}
 	// frozen per-function expectation (function → classes of its sites, sorted)
@@ -621,7 +621,7 @@ func returnStringSets(p *core.Prog, fn *ssa.Function) []string {
 
 func c12(c *core.Check) {
 	p := c.Prog
-	c.Explain = "Thin structural clauses of page breaking: the forced and avoid break vocabularies tested by layout are exactly the CSS Fragmentation sets (with column variants only inside columns), every computed break value the validators can produce is classified, `always` computes to `page`, the between-siblings resolution prefers forced over avoid over auto, and the :nth() page arithmetic divides only by a non-zero step. Page geometry, break positions, orphans/widows and blank pages are not decided. Also decided: (R5) pageWidthOrHeight folded for all auto combinations; (R6) the orphans/widows tests as normalised linear inequalities."
+	c.Explain = "Thin structural clauses of page breaking: the forced and avoid break vocabularies tested by layout are exactly the CSS Fragmentation sets (with column variants only inside columns), every computed break value the validators can produce is classified, `always` computes to `page`, the between-siblings resolution prefers forced over avoid over auto, and the :nth() page arithmetic divides only by a non-zero step. Page geometry, break positions, orphans/widows and blank pages are not decided. Also decided: (R5) pageWidthOrHeight folded for all auto combinations; (R6) the orphans/widows tests as normalised linear inequalities.  (R7) recto/verso sides for both directions and the start/end page names read at breaks."
 	r1 := c.Rule("R1", "forcePageBreak tests {page,left,right,recto,verso} (+column in columns); avoidPageBreak tests {avoid,avoid-page} (+avoid-column in columns); blockLevelPageBreak's side set is {left,right,recto,verso} and its choice table lets page/column override everything and avoid* override auto; every break-before/after/inside value the validators emit (after always→page) is forced, avoid or auto", 25)
 	fpb := p.Fn("html/layout", "forcePageBreak")
 	apb := p.Fn("html/layout", "avoidPageBreak")
